@@ -115,6 +115,9 @@ CfgsC04main == { c \in CfgsC04 : (c.allowIdp => c.reqVal = "none") }
 SomeOut == { {}, {"id1"}, {""}, {"id1", "id2"}, {"id1", ""}, {"pfx"}, {"sfx"}, {"id2", "pfx", "sfx"} }
 
 IrtOneConf  == { [Base EXCEPT !.rIRT = r, !.assns[1].confs[1].irt = c] : r \in IrtCls, c \in IrtCls }
+\* an assertion without any subject confirmation: only the Response-level InResponseTo stands between
+\* an empty outstanding set and acceptance
+IrtNoConfs  == { [Base EXCEPT !.rIRT = r, !.assns[1].confs = <<>>] : r \in IrtCls }
 IrtTwoConfs == { [Base EXCEPT !.rIRT = r, !.assns[1].confs = <<Conf("eq", c1, "in"), Conf("eq", c2, "in")>>] :
                    r \in {"id1", "absent"}, c1 \in IrtCls, c2 \in IrtCls }
 IrtTwoAssns == { [Base EXCEPT !.assns = <<Assn(FALSE, "eq", <<Conf("eq", c1, "in")>>, <<"eq">>, "in"),
@@ -123,12 +126,12 @@ IrtTwoAssns == { [Base EXCEPT !.assns = <<Assn(FALSE, "eq", <<Conf("eq", c1, "in
 ArtC04 == { [Base EXCEPT !.entry = "artifact", !.art.irt = a, !.art.signed = sg, !.signed = ~sg, !.rIRT = r, !.assns[1].confs[1].irt = c] :
               a \in {"match", "old", "other", "absent"}, sg \in BOOLEAN, r \in {"id1", "other", "absent"}, c \in {"id1", "other", "absent"} }
 
-InitC04q == \/ /\ cfg \in CfgsC04main /\ in \in IrtOneConf
+InitC04q == \/ /\ cfg \in CfgsC04main /\ in \in IrtOneConf \cup IrtNoConfs
             \/ /\ cfg \in { c \in CfgsC04main : c.outstanding \in SomeOut }
                /\ in \in IrtTwoConfs \cup IrtTwoAssns \cup ArtC04
                         \cup { [x EXCEPT !.entry = "post"] : x \in IrtOneConf }
                         \cup { Unsigned(x) : x \in IrtOneConf }
-InitC04t == \/ /\ cfg \in CfgsC04 /\ in \in IrtOneConf \cup { Unsigned(x) : x \in IrtOneConf }
+InitC04t == \/ /\ cfg \in CfgsC04 /\ in \in IrtOneConf \cup IrtNoConfs \cup { Unsigned(x) : x \in IrtOneConf \cup IrtNoConfs }
             \/ /\ cfg \in CfgsC04main
                /\ in \in IrtTwoConfs \cup IrtTwoAssns \cup ArtC04 \cup { [x EXCEPT !.entry = "post"] : x \in IrtOneConf }
 
